@@ -421,6 +421,15 @@ def server_case(ctx, seed, nclients, mode, clock='steady'):
                 m = Message('note_on', channel=c, note=q, velocity=rng.randrange(128))
                 cl.send(m)
                 sent.append(m)
+                if rng.random() < 0.3:
+                    cl.send(m)                        # the same note again: two messages
+                    sent.append(m)
+            # keep-alives and clock ticks look all alike - each one sent is one to hand out
+            for t in rng.choice(((), ('active_sensing', 'active_sensing'), ('clock', 'clock', 'clock'),
+                                 ('active_sensing', 'clock', 'active_sensing', 'active_sensing'), ('active_sensing',))):
+                m = Message(t)
+                cl.send(m)
+                sent.append(m)
         t_end = time.monotonic() + 20
         rounds = 0
         while len(got) < len(sent) and time.monotonic() < t_end and rounds < 3000:
@@ -442,14 +451,14 @@ def server_case(ctx, seed, nclients, mode, clock='steady'):
             else:
                 m = server.receive()
                 got.append(m)
-        key = lambda m: (m.channel, m.note)  # noqa: E731
+        key = lambda m: (m.type, getattr(m, 'channel', -1), getattr(m, 'note', -1))  # noqa: E731
         ctx.check('server hands out every client message exactly once',
                   sorted(map(key, got)) == sorted(map(key, sent)) and all(g in sent for g in got),
                   'server-lost-or-duplicated', case,
                   lambda: {'got': sorted(map(key, got)), 'sent': sorted(map(key, sent))})
         # per client order
         for c in range(nclients):
-            seq = [m.note for m in got if m.channel == c]
+            seq = [m.note for m in got if getattr(m, 'channel', -1) == c]
             ctx.check('server hands out every client message exactly once', seq == sorted(seq),
                       'server-per-client-order', case, seq)
         # nothing more
